@@ -2,6 +2,7 @@ package rules
 
 import (
 	"go/ast"
+	"go/token"
 	"go/types"
 	"sort"
 
@@ -26,6 +27,8 @@ func init() {
 		NotDecided: "Semantic equivalence with the FRR-mode output (needs an interpretation of both); behaviour of frr-k8s itself.",
 		Run:        runC15,
 		Mutants: []Mutant{
+			{Name: "dump-retracts-in-callers-object", File: "internal/bgp/frrk8s/frrk8s.go",
+				Old: "\ttoDump := config.DeepCopy()\n", New: "\ttoDump := &config\n", Expect: "DUMP-COPY"},
 			{Name: "allowed-prefixes-unsorted", File: "internal/bgp/frrk8s/frrk8s.go",
 				Old: "\t\tsort.Strings(neighbor.ToAdvertise.Allowed.Prefixes)\n", New: "", Expect: "DEDUP-SORT"},
 			{Name: "password-and-secret-both-emitted", File: "internal/bgp/frrk8s/frrk8s.go",
@@ -54,6 +57,8 @@ func init() {
 }
 
 func runC15(p *chk.Prog, r *chk.Report) {
+	scratchRule(p, r, "internal/bgp/frrk8s")
+	c15Dump(p, r)
 	c15MapOrder(p, r)
 	c15DedupSort(p, r)
 	c15Password(p, r)
@@ -467,5 +472,91 @@ func c15Params(p *chk.Prog, r *chk.Report) {
 			}
 		}
 		x.Check("Neighbor."+k, lit.Pos(), ok, "", "Neighbor."+k+" is not filled from SessionParameters."+table[k])
+	}
+}
+
+// c15Dump: ConfigToDump blanks the passwords for logging. The FRRConfiguration it receives by value shares its
+// routers / neighbours slices with the caller (the object handed to the callback, the reconciler's desired state), so
+// every element it writes must belong to a deep copy.
+func c15Dump(p *chk.Prog, r *chk.Report) {
+	x := r.Rule("DUMP-COPY", "D ownership (escape)", "in frrk8s.ConfigToDump every write into an element (x[i].f = …, through range variables and locals) is rooted in a local defined by config.DeepCopy(): the caller's FRRConfiguration, whose slices are shared with a by-value copy, is never written", 1)
+	f := need(x, p, fk8Pkg, "", "ConfigToDump")
+	if f == nil {
+		return
+	}
+	g := f.Graph()
+	cfg := isParamIdx(f, 0)
+	// root of an expression: through selectors, indexing, dereferences, range variables and plain locals
+	var root func(e ast.Expr, depth int) ast.Expr
+	root = func(e ast.Expr, depth int) ast.Expr {
+		for depth < 12 {
+			depth++
+			switch v := ast.Unparen(e).(type) {
+			case *ast.SelectorExpr:
+				e = v.X
+			case *ast.IndexExpr:
+				e = v.X
+			case *ast.StarExpr:
+				e = v.X
+			case *ast.Ident:
+				for _, rs := range f.RangeLoops(chk.Any) {
+					if id, ok := rs.Value.(*ast.Ident); ok && f.ObjOf(id) == f.ObjOf(v) {
+						return root(rs.X, depth)
+					}
+				}
+				return v
+			default:
+				return e
+			}
+		}
+		return e
+	}
+	n := 0
+	for _, s := range g.Find(func(nd ast.Node) bool {
+		as, ok := nd.(*ast.AssignStmt)
+		if !ok || as.Tok != token.ASSIGN {
+			return false
+		}
+		for _, l := range as.Lhs {
+			if _, isId := ast.Unparen(l).(*ast.Ident); !isId {
+				return true
+			}
+		}
+		return false
+	}) {
+		as := s.Node.(*ast.AssignStmt)
+		for _, l := range as.Lhs {
+			if _, isId := ast.Unparen(l).(*ast.Ident); isId {
+				continue
+			}
+			if !c15Indirect(f, l) {
+				continue // a field of a local struct value: nothing shared is written
+			}
+			n++
+			rt := root(l, 0)
+			ok := definedBy(g, "C.DeepCopy()", chk.H("C", cfg))(rt)
+			x.Check("ConfigToDump:write@"+types.ExprString(l), s.Pos(), ok, "", "ConfigToDump writes through "+types.ExprString(rt)+", which is not a deep copy of the configuration: the caller's object (shared slices) is modified - the password handed to the back end becomes \"<retracted>\"")
+		}
+	}
+	x.Check("ConfigToDump:retracts", f.Pos(), n > 0, "", "ConfigToDump no longer retracts anything")
+}
+
+// c15Indirect: the written location is reached through an element, a dereference, a pointer-typed base or a range
+// variable (memory that may be shared), not a field of a local struct value.
+func c15Indirect(f *chk.Fn, e ast.Expr) bool {
+	for {
+		switch v := ast.Unparen(e).(type) {
+		case *ast.SelectorExpr:
+			if t := f.Info().TypeOf(v.X); t != nil {
+				if _, ok := t.Underlying().(*types.Pointer); ok {
+					return true
+				}
+			}
+			e = v.X
+		case *ast.IndexExpr, *ast.StarExpr:
+			return true
+		default:
+			return false
+		}
 	}
 }
